@@ -26,6 +26,10 @@ def datasets(rng, n_random):
     out.append(('both-constant', np.full((5, 2), .25)))
     out.append(('below-zero', np.array([[.1, .2], [-.1, .4], [.3, .1], [.4, .3]])))
     out.append(('above-one', np.array([[.1, .2], [.2, .4], [.3, 1.5], [.4, .3]])))
+    out.append(('barely-above-one', np.array([[.1, .2], [.2, .4], [.3, 1.0 + 5e-8], [.4, .3]])))
+    out.append(('barely-below-zero', np.array([[.1, .2], [-5e-8, .4], [.3, .1], [.4, .3]])))
+    out.append(('ulp-above-one', np.array([[.1, .2], [.2, .4], [.3, .1], [np.nextafter(1.0, 2.0), .3]])))
+    out.append(('denormal-below-zero', np.array([[.1, .2], [.2, -5e-324], [.3, .1], [.4, .3]])))
     out.append(('two-rows', np.array([[.2, .3], [.6, .8]])))
     out.append(('two-rows-disc', np.array([[.2, .8], [.6, .3]])))
     out.append(('edge-values', np.array([[0., 0.], [1., 1.], [.5, .25], [.25, .5]])))
